@@ -1302,7 +1302,7 @@ func (e *Exec) bootstrap(st *Step) {
 		}
 	}
 	e.Stats.Inc("probe.export_import_roundtrip")
-	if Keyed(e.S.Seed, "zero-height", uint64(h)).Chance(0.35) {
+	if Keyed(e.S.Seed, "zero-height", uint64(h)).Chance(0.5) {
 		e.zeroHeightExport(r0, secs, vals, h)
 	}
 	follow()
@@ -1339,7 +1339,13 @@ func (e *Exec) zeroHeightExport(r0 *Replica, secs map[string]string, vals []abci
 	s0, _ := customSections(appState)
 	for _, mod := range customGenesisModules {
 		if s0[mod] != secs[mod] {
-			e.viol("C08", "export.zero_height_differs."+mod, "", "the %s section of the zero-height export differs from the plain export of the same state (height %d): %s  VS  %s", mod, h, trunc(s0[mod], 300), trunc(secs[mod], 300))
+			prop := "C08"
+			switch {
+			case mod == "did" && (e.Prop == "C04" || e.Prop == "C05"), mod == "aol" && (e.Prop == "C01" || e.Prop == "C13"), mod == "pnft" && e.Prop == "C12":
+				// sequences, tombstones, records, counters and tokens "across export/import" are that property's own words
+				prop = e.Prop
+			}
+			e.viol(prop, "export.zero_height_differs."+mod, "", "the %s section of the zero-height export differs from the plain export of the same state (height %d): %s  VS  %s", mod, h, trunc(s0[mod], 300), trunc(secs[mod], 300))
 			return
 		}
 	}
